@@ -84,13 +84,13 @@ MsgUnmarshalOK(ev) ==
         ELSE LET body == MkIn(Drop(in.segs, h.n)) IN
              IF h.val.mt = 3                                      \* EXCEPTION
              THEN LET x == ReadStruct("AppEx", body) IN
-                  IF x.ok THEN /\ ev.isexc /\ ev.exctid = x.val.i /\ Norm(ev.excmsg) = x.val.s1
+                  IF x.ok THEN /\ ev.isexc /\ ev.exctid = x.val.i /\ SegsEq(ev.excmsg, x.val.s1)
                                /\ ev.untouched                      \* the caller's struct is not decoded into
-                               /\ Norm(ev.method) = Norm(Slice(in, h.val.name.at, h.val.name.len)) /\ ev.seq = h.val.seq
+                               /\ SegsEq(ev.method, Slice(in, h.val.name.at, h.val.name.len)) /\ ev.seq = h.val.seq
                   ELSE ~ev.ok /\ ~ev.isexc
              ELSE LET r == ReadStruct(ev.schema, body) IN
                   IF r.ok THEN /\ ev.ok /\ ~ev.isexc
-                               /\ Norm(ev.method) = Norm(Slice(in, h.val.name.at, h.val.name.len)) /\ ev.seq = h.val.seq
+                               /\ SegsEq(ev.method, Slice(in, h.val.name.at, h.val.name.len)) /\ ev.seq = h.val.seq
                                /\ SameVal(ev.schema, NormVal(ev.schema, ev.val), r.val)
                   ELSE ~ev.ok /\ ~ev.isexc
 
